@@ -645,7 +645,7 @@ def check(pid, tier):
         path = write_replay(pid, seed, v["id"].replace("/", "_"), dict(
             kind="failing-input", component=comp, input=v["input"], observed=v["impl"], model=v["model"],
             spec_clause=v["clause"], status=v["status"], other_failing=len(unknown_specs) - 1,
-            broken=[(k, d[:3]) for k, d in broken]))
+            broken=[(k, d[:3]) for k, d in broken], failed_obligations=proofs["failed"]))
         violations.append((path, ""))
     elif broken:
         # something no longer checks but no input violates the Spec yet: failing-input search with a larger budget
@@ -674,7 +674,8 @@ def check(pid, tier):
                 notes.append("shrink failed: %r" % (e,))
             path = write_replay(pid, seed, v["id"].replace("/", "_"), dict(
                 kind="failing-input", component=comp, input=v["input"], observed=v["impl"], model=v["model"],
-                spec_clause=v["clause"], status=v["status"], broken=[(k, d[:3]) for k, d in broken]))
+                spec_clause=v["clause"], status=v["status"], broken=[(k, d[:3]) for k, d in broken],
+                failed_obligations=proofs["failed"]))
             violations.append((path, ""))
         else:
             first_diff = None
